@@ -11,8 +11,9 @@
 (*          and the message catalogue;                                     *)
 (*   hist   the operations done so far with their outcomes.                *)
 (*                                                                         *)
-(* Operations: Render(t, d) for 3 templates x 3 data sets (the third makes *)
-(* every template fail midway), GenJS(f) for the two files, EvalExpr.      *)
+(* Operations: Render(t, d) for 3 templates x 3 data sets (the third lacks *)
+(* $x, so every template fails midway where it prints it), GenJS(f) for    *)
+(* the two files, EvalExpr.                                                *)
 (* Every render runs the reference interpreter SoyExec to completion as a  *)
 (* function (SoyBundleRun!RunToEnd).  The configuration of the             *)
 (* user-extensible registries is the constant CfgName:                     *)
@@ -119,7 +120,7 @@ Reg0 == [bundle |-> TheBundle, dirs |-> Dirs0, memo |-> [x \in {} |-> <<>>]]
 DataSets == <<"d1", "d2", "d3">>
 Store0 == [data |-> [d1 |-> [x |-> S("u<v"), xs |-> L(<<I(1), I(2)>>), n |-> I(3)],
                      d2 |-> [x |-> S(""), xs |-> L(<<>>), n |-> I(0)],
-                     d3 |-> [x |-> S("q"), xs |-> I(5), n |-> S("s")]],
+                     d3 |-> [xs |-> L(<<I(7)>>), n |-> I(0)]],       \* no x: printing it fails
            ij |-> M([who |-> S("W&")]),
            cat |-> "identity"]     \* a catalogue that translates every message to itself
 
@@ -184,7 +185,10 @@ HistoryIndependent ==
   Len(hist) > 0 =>
     LET e == hist[Len(hist)] f == Outcome(Reg0, Store0, e.op) IN e.st = f.st /\ e.out = f.out
 
-\* no render of the model leaves the model's domain or runs out of fuel
+\* no render of the model leaves the model's domain or runs out of fuel.
+\* (Not an invariant of every configuration: without the custom function the
+\* call of vmax2 in b.t3 is an unknown function, on which SoyExpr makes no
+\* claim; the harness then compares that step with a fresh bundle only.)
 AllDecided == \A i \in 1..Len(hist) : hist[i].st \in {"ok", "err"}
 
 (***************************************************************************)
